@@ -285,6 +285,12 @@ func tryFindPrefix(node *RegexNode, vsb *bytes.Buffer) bool {
 				addedLength = commonPrefixLen(vsbSlice, alternateSb.Bytes())
 			}
 
+			// The comparison is on UTF-8 bytes: two different runes can share their leading
+			// bytes, so back up to a rune boundary.
+			for addedLength > 0 && addedLength < len(vsbSlice) && !utf8.RuneStart(vsbSlice[addedLength]) {
+				addedLength--
+			}
+
 			// Then cull back on what was added based on the other branches.
 			vsb.Truncate(initialLength + addedLength)
 		}
